@@ -119,6 +119,7 @@ def do_yield(ip, y, st):
             from .calls import eval_spec
             ip.emit("lazy", "at-yield#%d" % k, s2, eval_spec(ip, s2, env, cl, old=ip.entry))
         out = s2.env["out"]
+        s2.notes["yc"] = ADD(s2.notes.get("yc", I(0)), I(1))        # ghost yield counter (spec form yield_count())
         if isinstance(s2.heap[out.cid], PyListCell):
             s2.heap[out.cid] = PyListCell(s2.heap[out.cid].items + [v])
             s2.notes["n_yields"] = s2.notes.get("n_yields", 0) + 1
@@ -129,10 +130,15 @@ def do_yield(ip, y, st):
             outs.append(("next", s2, None))
             outs += abandon_here(ip, s2)
             continue
-        t = ip.deref(s2, out)
-        from .builtins_ import elem_term
-        vt = elem_term(ip, s2, ip.to_yield_value(s2, v), ip.reg.lst_elem[t.sort])
-        ip.store(s2, out, ip.reg.l_append(t, vt))
+        if type(s2.heap[out.cid]).__name__ == "StructLstCell":
+            # generator yielding tuples of a declared shape: one ghost list per component (histlib)
+            from .histlib import struct_append
+            s2.heap[out.cid] = struct_append(ip, s2, s2.heap[out.cid], v)
+        else:
+            t = ip.deref(s2, out)
+            from .builtins_ import elem_term
+            vt = elem_term(ip, s2, ip.to_yield_value(s2, v), ip.reg.lst_elem[t.sort])
+            ip.store(s2, out, ip.reg.l_append(t, vt))
         s2.notes["n_yields"] = s2.notes.get("n_yields", 0) + 1
         env = ip.spec_env(s2)
         for k, cl in enumerate(ip.c.abandon):
@@ -172,8 +178,7 @@ def st_Assign(ip, s, st):
         head, args = parse_type(ip.c.local_types[s.targets[0].id])
         if head != "Lst":
             raise U("local_types: only Lst[...] is supported")
-        t = ip.reg.new(s.targets[0].id + "0", ip.lst_sort(args[0]))
-        st.assume(EQ(ip.reg.l_len(t), I(0)))
+        t = ip.reg.l_empty_canonical(ip.lst_sort(args[0]))
         st.env[s.targets[0].id] = ip.new_cell(st, LstCell(t))
         return [("next", st, None)]
     for s2, v in ip.ev(s.value, st):
@@ -230,6 +235,9 @@ def assign_to(ip, target, v, st):
 
 def store_item(ip, s, base, idx, v):
     from .builtins_ import elem_term
+    if isinstance(base, Ref) and type(s.heap[base.cid]).__name__ == "KeyMapCell":
+        from .keymap import km_store_item
+        return km_store_item(ip, s, base, idx, v)
     if isinstance(base, Ref):
         cell = s.heap[base.cid]
         if not isinstance(cell, ValCell):
@@ -708,8 +716,37 @@ def other_refs(st, cid, but_name):
     return False
 
 
+def prov_fixpoint(ip, st, k, run):
+    """a loop cut at its invariant is explored from its head; `is_deep_copy` provenance (State.notes['deep_copies']) is
+    path information that a back edge would lose.  If some iteration path of loop #k taints a deep copy made before the
+    loop, the loop is explored again with that object not counted as a deep copy at the head (sound: is_deep_copy only
+    shrinks; the obligations of the abandoned exploration are dropped)."""
+    def lost():
+        return set(getattr(ip, "_prov_lost", {}).get(k, ()))
+    lost0 = lost()
+    nv, ne = len(ip.vcs), len(ip._exc_out)
+    saved = st.copy()
+    outs = run(st)
+    new = lost() - lost0
+    rounds = 0
+    while new:
+        rounds += 1
+        if rounds > 4:
+            raise U("ownership provenance of a loop does not stabilise")
+        del ip.vcs[nv:]
+        del ip._exc_out[ne:]
+        st2 = saved.copy()
+        st2.notes["deep_copies"] = set(st2.notes.get("deep_copies", ())) - lost()
+        saved = st2.copy()
+        before = lost()
+        outs = run(st2)
+        new = lost() - before
+    return outs
+
+
 def havoc_loop(ip, node, h, spec, body_nodes):
     from .calls import havoc_value
+    h.notes["dc_head_%s" % loop_ordinal(ip, node)] = frozenset(h.notes.get("deep_copies", ()))
     names, roots, yields, elem_state = mutated_roots(ip, body_nodes)
     names |= set(getattr(spec, "body_ghost", {}).keys())
     keep = set(spec.keep)
@@ -791,8 +828,12 @@ def havoc_loop(ip, node, h, spec, body_nodes):
                     nt = ip.reg.new(n, t.sort)
                     ip.assume_wf(h, nt)
                     h.env[n] = ip.new_cell(h, LstCell(nt))
+                    # WHICH object the name refers to at the loop head is unknown (it may alias anything): reading it
+                    # yields unknown content, writing through it is rejected (Interp.store)
+                    h.notes["unknown_alias"] = set(h.notes.get("unknown_alias", ())) | {h.env[n].cid}
                 elif isinstance(cell, ValCell):
                     h.env[n] = ip.new_cell(h, ValCell(ip.reg.new(n, "Val")))
+                    h.notes["unknown_alias"] = set(h.notes.get("unknown_alias", ())) | {h.env[n].cid}
                 elif isinstance(cell, IterCell):
                     # the name is re-bound to another iterator in the loop: unknown content, unknown position
                     if getattr(cell, "kind", None) is not None or getattr(cell, "live", None) is not None:
@@ -825,6 +866,12 @@ def havoc_loop(ip, node, h, spec, body_nodes):
                 raise U("havoc of local %s = %r" % (n, cur))
         elif n in spec.ghost:
             h.env[n] = ip.make(spec.ghost[n], n, h)
+    if yields:
+        # ghost yield counter: earlier iterations yielded an unknown number of values
+        yc0 = h.notes.get("yc", I(0))
+        yc = ip.reg.new("yc", "Int")
+        h.assume(CMP(">=", yc, yc0))
+        h.notes["yc"] = yc
     if yields and "out" in h.env:
         if isinstance(h.heap[h.env["out"].cid], PyListCell):
             # heterogeneous yields (yields="Any"): what was yielded in earlier iterations is not tracked across the
@@ -897,12 +944,29 @@ def call_frame(ip, call, h):
 def check_invariants(ip, k, spec, st, kind):
     from .calls import eval_spec
     env = ip.spec_env(st)
+    if kind == "preserve":
+        # ownership provenance across the loop cut: a deep copy (made before the loop) into which this iteration stored
+        # a possibly shared object is no deep copy at the loop head either (see prov_fixpoint)
+        head = st.notes.get("dc_head_%s" % k)
+        if head:
+            now = st.notes.get("deep_copies", ())
+            lost = {c for c in head if c in st.heap and c not in now}
+            if lost:
+                tab = dict(getattr(ip, "_prov_lost", {}))
+                tab[k] = set(tab.get(k, ())) | lost
+                ip._prov_lost = tab
     for j, inv in enumerate(spec.invariant):
         ip.emit("inv-" + kind, "loop#%d.%s#%d" % (k, kind, j), st, eval_spec(ip, st, env, inv, old=ip.entry))
+    if getattr(spec, "cursor", None):
+        from .dicts import check_cursors
+        check_cursors(ip, k, spec, st, kind)
 
 
 def assume_invariants(ip, spec, st):
     from .calls import eval_spec
+    if getattr(spec, "cursor", None):
+        from .dicts import set_cursors
+        set_cursors(ip, spec, st)
     env = ip.spec_env(st)
     for inv in spec.invariant:
         st.assume(eval_spec(ip, st, env, inv, old=ip.entry))
@@ -933,6 +997,10 @@ def end_of_body(ip, k, spec, st, m0):
 
 
 def st_While(ip, s, st):
+    return prov_fixpoint(ip, st, loop_ordinal(ip, s), lambda x: st_While_(ip, s, x))
+
+
+def st_While_(ip, s, st):
     if s.orelse:
         raise U("while/else")
     k = loop_ordinal(ip, s)
@@ -998,6 +1066,10 @@ def set_loop_ghost(ip, st, k, i_term):
 
 
 def st_For(ip, s, st):
+    return prov_fixpoint(ip, st, loop_ordinal(ip, s), lambda x: st_For_(ip, s, x))
+
+
+def st_For_(ip, s, st):
     if s.orelse:
         raise U("for/else")
     outs = []
@@ -1033,6 +1105,11 @@ def for_over(ip, s, st, itv):
         if spec is None:
             raise U("loop #%d (for over a dict) needs an invariant" % k)
         return for_dict(ip, s, st, itv, k, spec)
+    if isinstance(itv, Fun) and itv.kind == "mapview":
+        from .keymap import for_keymap
+        if spec is None:
+            raise U("loop #%d (for over a dict of lists) needs an invariant" % k)
+        return for_keymap(ip, s, st, itv, k, spec)
     if isinstance(itv, Fun) and itv.kind == "dictview":
         from .dicts import for_dict
         if spec is None:
